@@ -35,6 +35,7 @@ import (
 type attr struct{ id, addr, caddr int }
 
 type world struct {
+	ev   *evWorld // event / refresh / propagation tier (events.go, e2e.go)
 	ring *gocql.VerifRing
 	objs map[int]*gocql.HostInfo
 	num  map[*gocql.HostInfo]int
@@ -290,6 +291,9 @@ func (w *world) exec(op string) (res string) {
 	f := strings.Fields(op)
 	if len(f) == 0 {
 		return "bad-op"
+	}
+	if a, ok := evExec(w, f); ok { // ops `reset ev…`, `ev…`, `e2e…` (events.go, e2e.go)
+		return a
 	}
 	switch f[0] {
 	case "reset":
@@ -761,5 +765,7 @@ func main() {
 			randomOps(true)
 		}
 	}
+	runEvents(r, out, tier) // events.go: logical tier (real handlers / refreshRing on a dial-free Session)
+	runE2E(r, out, tier)    // e2e.go: real Sessions with control connection on scripted in-memory clusters
 	out.Close(nil)
 }
